@@ -1856,5 +1856,296 @@ Proof.
     destruct (Nat.eq_dec j k) as [->|Hne]; [|rewrite Hoth by exact Hne; exact Hj].
     rewrite (Hz k (le_n _)) in Hj. discriminate.
 Qed.
+
+Lemma set_ohash_other b k oh j : j <> k -> get_rt (set_ohash b k oh) j = get_rt b j.
+Proof. intro Hj. unfold set_ohash. rewrite get_rt_set_rt_other by auto. reflexivity. Qed.
+
+Lemma set_ohash_same b k oh : k < rt_len b -> rt_ohash (get_rt (set_ohash b k oh) k) = Some oh.
+Proof. intro Hk. unfold set_ohash. rewrite get_rt_set_rt_same by exact Hk. reflexivity. Qed.
+
+Lemma sim_k_unloaded k t bA bM :
+  node_at s k = Some (NTarget t) -> sim bA bM -> dep_ok bA k = false -> rt_loaded (get_rt bM k) = false.
+Proof.
+  intros Hn HS Hk. destruct (rt_loaded (get_rt bM k)) eqn:El; [|reflexivity].
+  pose proof HS as (_ & _ & _ & _ & _ & _ & _ & Sld). destruct (Sld k t Hn El) as [Hd _].
+  rewrite (sim_dep_ok bA bM k HS) in Hd. congruence.
+Qed.
+
+(* both modes serve node k from the cache *)
+Lemma hit_step c0 k t key res bA bM :
+  node_at s k = Some (NTarget t) -> goodA c0 k bA -> sim bA bM ->
+  (forall j, rt_key (get_rt bA j) <> Some key) ->
+  (forall r, rlookup key (c_results c0) = Some r -> outputs_match t r = true) ->
+  rlookup key (c_results (b_cache bA)) = Some res ->
+  exists b1, load_outputs H k t res (pt_b0 k key bA) = (true, b1) /\
+    goodA c0 (S k) (mark b1 k THit) /\
+    sim (mark b1 k THit) (mark (set_ohash (pt_b0 k key bM) k (r_outhash res)) k THit).
+Proof.
+  intros Hn HG HS Hfresh Hfits Hr. pose proof HG as (HC & Hz & Horig).
+  pose proof HC as (Hci & Hwk & Hlen & Hgood).
+  pose proof HS as (Sc & Sx & Ss & Se & Sl & Srt & Swk & Sld).
+  pose proof (Hz k (le_n _)) as Hk0.
+  assert (HkA : k < rt_len bA) by (rewrite Hlen; eapply node_at_lt; eauto).
+  assert (HkM : k < rt_len bM) by (rewrite <- Sl; exact HkA).
+  assert (Hdk : dep_ok bA k = false) by (unfold dep_ok; rewrite Hk0; reflexivity).
+  assert (Hm : outputs_match t res = true).
+  { destruct (Horig key) as [O|(j & Hj)]; [|exfalso; apply (Hfresh j Hj)].
+    apply Hfits. rewrite <- O. exact Hr. }
+  assert (Hl0 : rt_loaded (get_rt (pt_b0 k key bA) k) = false) by (rewrite pt_b0_loaded, Hk0; reflexivity).
+  pose proof (load_outputs_ok H k t res (pt_b0 k key bA) Hl0 Hm
+                (restorable_ok (b_cache bA) t (w_ws (b_world bA)) key res Hci Hwk Hr Hm)) as Hfst.
+  destruct (load_outputs H k t res (pt_b0 k key bA)) as [ok b1] eqn:E. cbn [fst] in Hfst. subst ok.
+  exists b1. split; [reflexivity|].
+  destruct (hitA k t key res bA b1 Hn HC Hk0 Hfresh Hr E) as (HC1 & Fc & Fx & Fs & Fe & Fl & Fk & Foth & Fws).
+  split.
+  - apply (goodA_finish c0 k bA); auto.
+    + intros j Hj. rewrite get_rt_mark_other by auto. apply Foth, Hj.
+    + intro key'. left. rewrite b_cache_mark, Fc. reflexivity.
+  - apply (sim_step k t bA bM); auto.
+    + transitivity (b_cache bA); [rewrite b_cache_mark; exact Fc | exact Sc].
+    + transitivity (b_exec bA); [rewrite b_exec_mark; exact Fx | exact Sx].
+    + transitivity (b_stop bA); [rewrite b_stop_mark; exact Fs | exact Ss].
+    + transitivity (w_ext (b_world bA)); [rewrite b_world_mark; exact Fe | exact Se].
+    + rewrite !rt_len_mark, Fl. unfold set_ohash. rewrite rt_len_set_rt, pt_b0_len. exact Sl.
+    + intros j Hj. rewrite get_rt_mark_other by auto. apply Foth, Hj.
+    + intros j Hj. rewrite get_rt_mark_other, set_ohash_other by auto. apply pt_b0_other, Hj.
+    + rewrite !rt_key_mark, !rt_ohash_mark, Fk. cbn [rt_key rt_ohash].
+      rewrite (set_ohash_field rt_key) by reflexivity. rewrite pt_b0_key by exact HkM.
+      rewrite set_ohash_same by (rewrite pt_b0_len; exact HkM).
+      split; [reflexivity|]. split; [reflexivity|].
+      rewrite !rt_status_mark_same; [reflexivity | | rewrite Fl; exact HkA].
+      unfold set_ohash. rewrite rt_len_set_rt, pt_b0_len. exact HkM.
+    + intros Hl. exfalso. rewrite rt_loaded_mark in Hl.
+      rewrite (set_ohash_field rt_loaded) in Hl by reflexivity. rewrite pt_b0_loaded in Hl.
+      rewrite (sim_k_unloaded k t bA bM Hn HS Hdk) in Hl. discriminate.
+Qed.
+
+Lemma execute_exec_stop cfg i t key tn b ok b' :
+  execute H cfg s i t key tn b = (ok, b') ->
+  b_exec b' = b_exec (exec_start t b) /\ b_stop b' = b_stop b.
+Proof.
+  intro E. destruct ok.
+  - pose proof (Build_single_proofs.execute_ok H _ _ _ _ _ _ _ _ E) as X.
+    split; [apply (eo_exec _ _ _ _ _ _ X) | apply (eo_stop _ _ _ _ _ _ X)].
+  - destruct (execute_fail H _ _ _ _ _ _ _ _ E) as (_ & _ & F3 & F4 & _). auto.
+Qed.
+
+Lemma exec_start_exec t b b' : b_exec b = b_exec b' -> b_exec (exec_start t b) = b_exec (exec_start t b').
+Proof. intro E. unfold exec_start. destruct (null (td_cmd t)); [exact E|]. cbn [add_exec b_exec]. rewrite E. reflexivity. Qed.
+
+Lemma execute_key_status cfg i t key tn b ok b' :
+  i < rt_len b -> execute H cfg s i t key tn b = (ok, b') ->
+  rt_key (get_rt b' i) = rt_key (get_rt b i) /\ rt_status (get_rt b' i) = rt_status (get_rt b i) /\
+  rt_loaded (get_rt b' i) = (ok || rt_loaded (get_rt b i)).
+Proof.
+  intros Hi E. destruct (execute_shape H cfg s i t key tn b ok b' Hi E) as (_ & _ & Hf & Ht).
+  destruct ok.
+  - destruct (Ht eq_refl) as (res & -> & _). auto.
+  - destruct (Hf eq_refl) as [-> _]. auto.
+Qed.
+
+Lemma sim_pt_b0 k t key bA bM :
+  node_at s k = Some (NTarget t) -> sim bA bM -> dep_ok bA k = false -> k < rt_len bA ->
+  sim (pt_b0 k key bA) (pt_b0 k key bM).
+Proof.
+  intros Hn HS Hdk HkA. pose proof HS as (Sc & Sx & Ss & Se & Sl & Srt & Swk & Sld).
+  apply (sim_step k t bA bM); auto.
+  - rewrite !pt_b0_len. exact Sl.
+  - intros j Hj. apply pt_b0_other, Hj.
+  - intros j Hj. apply pt_b0_other, Hj.
+  - rewrite !pt_b0_same by (try rewrite <- Sl; exact HkA). cbn [rt_key rt_ohash rt_status].
+    destruct (Srt k) as (_ & K2 & K3). auto.
+  - intro Hl. exfalso. rewrite pt_b0_loaded in Hl.
+    rewrite (sim_k_unloaded k t bA bM Hn HS Hdk) in Hl. discriminate.
+Qed.
+
+(* mode minimal, a miss at node k: the dependencies get restored, and the command then reads the same bytes *)
+Lemma miss_deps k t key bA bM :
+  node_at s k = Some (NTarget t) -> length (td_deps t) <= length (s_nodes s) ->
+  coreA bA -> get_rt bA k = rt0 -> sim bA bM -> ok_closed s k bA ->
+  forallb (dep_ok bA) (td_deps t) = true ->
+  exists bM2,
+    load_dep_outputs H (S (length (s_nodes s))) cfgM s (td_deps t) (pt_b0 k key bM) = (true, bM2) /\
+    sim (pt_b0 k key bA) bM2 /\
+    dep_parts s (w_ws (b_world (pt_b0 k key bA))) (td_deps t) =
+    dep_parts s (w_ws (b_world bM2)) (td_deps t).
+Proof.
+  intros Hn Hshort HC Hk0 HS Hcl Hall. pose proof HC as (_ & _ & Hlen & _).
+  assert (HkA : k < rt_len bA) by (rewrite Hlen; eapply node_at_lt; eauto).
+  assert (Hdk : dep_ok bA k = false) by (unfold dep_ok; rewrite Hk0; reflexivity).
+  assert (Hdeps : forall d j tj, In d (td_deps t) -> resolve s d = Some (j, tj) ->
+                                 dep_ok (pt_b0 k key bA) j = true).
+  { intros d j tj Hd Hres. rewrite forallb_forall in Hall.
+    pose proof (resolve_alias_ok s k bA Hcl _ _ _ _ (Hall d Hd) Hres) as Hj.
+    assert (j <> k) by (apply (proj1 Hcl) in Hj; lia).
+    unfold dep_ok. rewrite pt_b0_other by auto. exact Hj. }
+  destruct (ldo_M (pt_b0 k key bA) (coreA_pt_b0 k key bA Hdk HC) (td_deps t) (S (length (s_nodes s)))
+              (pt_b0 k key bM) (sim_pt_b0 k t key bA bM Hn HS Hdk HkA) ltac:(lia) Hdeps)
+    as (bM2 & E2 & HS2 & _ & Hall2).
+  exists bM2. split; [exact E2|]. split; [exact HS2|].
+  apply dep_parts_ext. intros d j tj o Hd Hres Ho.
+  pose proof HS2 as (_ & _ & _ & _ & _ & _ & _ & Sld2).
+  destruct (Sld2 j tj (resolve_target _ _ _ _ Hres) (Hall2 d j tj Hd Hres)) as [_ Hw].
+  symmetry. apply Hw, Ho.
+Qed.
+
+(* both modes execute node k: same outcome, same cache, same bytes *)
+Lemma exec_step c0 k t key tn bA bM2 okA bA3 okM bM3 :
+  node_at s k = Some (NTarget t) -> goodA c0 k bA ->
+  (forall j, rt_key (get_rt bA j) <> Some key) ->
+  sim (pt_b0 k key bA) bM2 ->
+  dep_parts s (w_ws (b_world (pt_b0 k key bA))) (td_deps t) = dep_parts s (w_ws (b_world bM2)) (td_deps t) ->
+  execute H cfgA s k t key tn (pt_b0 k key bA) = (okA, bA3) ->
+  execute H cfgM s k t key tn bM2 = (okM, bM3) ->
+  okA = okM /\
+  goodA c0 (S k) (mark bA3 k (if okA then TExecuted else TFailed)) /\
+  sim (mark bA3 k (if okA then TExecuted else TFailed)) (mark bM3 k (if okA then TExecuted else TFailed)).
+Proof.
+  intros Hn HG Hfresh HS2 Hdp EA EM. pose proof HG as (HC & Hz & Horig).
+  pose proof HC as (Hci & Hwk & Hlen & Hgood).
+  pose proof HS2 as (Sc & Sx & Ss & Se & Sl & Srt & Swk & Sld).
+  pose proof (Hz k (le_n _)) as Hk0.
+  destruct (plain_target s k t Hpl Hn) as [Hcmd _].
+  set (b0A := pt_b0 k key bA) in *.
+  assert (HkA : k < rt_len b0A) by (unfold b0A; rewrite pt_b0_len, Hlen; eapply node_at_lt; eauto).
+  assert (HkM : k < rt_len bM2) by (rewrite <- Sl; exact HkA).
+  assert (Hdk : dep_ok b0A k = false).
+  { unfold dep_ok, b0A, pt_b0. rewrite (get_rt_set_rt_field rt_status) by reflexivity. rewrite Hk0. reflexivity. }
+  destruct (execute_rel k t key tn b0A bM2 okA bA3 okM bM3 Hcmd HkA HkM Sc Se
+              (proj1 (proj2 (Srt k))) Hdp EA EM) as (Hok & Hc3 & He3 & Ho3 & Hown).
+  subst okM. split; [reflexivity|].
+  destruct (execute_shape H cfgA s k t key tn b0A okA bA3 HkA EA) as (HothA & HwsA & HfA & HtA).
+  destruct (execute_shape H cfgM s k t key tn bM2 okA bM3 HkM EM) as (HothM & HwsM & _ & _).
+  destruct (execute_key_status cfgA k t key tn b0A okA bA3 HkA EA) as (KA & StA & _).
+  destruct (execute_key_status cfgM k t key tn bM2 okA bM3 HkM EM) as (KM & StM & LdM).
+  destruct (execute_exec_stop cfgA k t key tn b0A okA bA3 EA) as [XA PA].
+  destruct (execute_exec_stop cfgM k t key tn bM2 okA bM3 EM) as [XM PM].
+  split.
+  - apply (goodA_finish c0 k bA).
+    + exact HG.
+    + apply (execA cfgA k t key tn bA okA bA3 HcA Hn HC Hk0 Hfresh EA).
+    + intros j Hj. rewrite get_rt_mark_other, HothA by auto. apply pt_b0_other, Hj.
+    + intro key'. destruct (str_eq_dec key' key) as [->|Hne].
+      * right. rewrite rt_key_mark, KA. apply pt_b0_key. rewrite <- (pt_b0_len k key bA). exact HkA.
+      * left. rewrite b_cache_mark. destruct okA.
+        -- destruct (HtA eq_refl) as (res & _ & Hr & _). rewrite Hr. apply rlookup_set_other. congruence.
+        -- destruct (HfA eq_refl) as [_ Hc]. rewrite Hc. reflexivity.
+  - apply (sim_step k t b0A bM2); auto.
+    + rewrite !b_exec_mark, XA, XM. apply exec_start_exec, Sx.
+    + rewrite !b_stop_mark, PA, PM. exact Ss.
+    + rewrite !rt_len_mark, (execute_len _ _ _ _ _ _ _ _ EA), (execute_len _ _ _ _ _ _ _ _ EM). exact Sl.
+    + intros j Hj. rewrite get_rt_mark_other by auto. apply HothA, Hj.
+    + intros j Hj. rewrite get_rt_mark_other by auto. apply HothM, Hj.
+    + rewrite !rt_key_mark, !rt_ohash_mark, KA, KM. destruct (Srt k) as (K1 & _ & _).
+      split; [exact K1|]. split; [exact Ho3|].
+      rewrite !rt_status_mark_same; [reflexivity | |].
+      * rewrite (execute_len _ _ _ _ _ _ _ _ EM). exact HkM.
+      * rewrite (execute_len _ _ _ _ _ _ _ _ EA). exact HkA.
+    + rewrite b_world_mark. eapply nowk_le; [|exact Swk].
+      apply (Build_c02_proofs.execute_frame H _ _ _ _ _ _ _ _ _ EM).
+    + intro Hl. rewrite rt_loaded_mark, LdM in Hl.
+      rewrite (sim_k_unloaded k t b0A bM2 Hn HS2 Hdk), orb_false_r in Hl. subst okA. split.
+      * unfold dep_ok. rewrite rt_status_mark_same; [reflexivity|].
+        rewrite (execute_len _ _ _ _ _ _ _ _ EM). exact HkM.
+      * intros o Ho. rewrite !b_world_mark. symmetry. apply (Hown eq_refl o Ho).
+Qed.
+
+(* the guard of node k: its key is fresh in this build, and a result stored under it by an earlier
+   build lists the same outputs (C09 restricted to this history) *)
+Definition node_guard (c0 : cache) (t : tdef) (bA : bstate) : Prop :=
+  forall dh, dep_hashes s bA (td_deps t) = Some dh ->
+    (forall j, rt_key (get_rt bA j) <> Some (pt_key H s t dh)) /\
+    (forall r, rlookup (pt_key H s t dh) (c_results c0) = Some r -> outputs_match t r = true).
+
+Lemma pt_step c0 k t bA bM :
+  node_at s k = Some (NTarget t) -> length (td_deps t) <= length (s_nodes s) ->
+  goodA c0 k bA -> sim bA bM -> ok_closed s k bA -> forallb (dep_ok bA) (td_deps t) = true ->
+  node_guard c0 t bA ->
+  goodA c0 (S k) (process_target H cfgA s k t bA) /\
+  sim (process_target H cfgA s k t bA) (process_target H cfgM s k t bM).
+Proof.
+  intros Hn Hshort HG HS Hcl Hall Hguard. pose proof HG as (HC & Hz & Horig).
+  pose proof HS as (Sc & _). pose proof (Hz k (le_n _)) as Hk0.
+  assert (Hdk : dep_ok bA k = false) by (unfold dep_ok; rewrite Hk0; reflexivity).
+  rewrite (pt_LAll H cfgA s k t bA HmA), (pt_LMin H cfgM s k t bM HmM).
+  rewrite <- (dep_hashes_sim bA bM HS).
+  destruct (dep_hashes s bA (td_deps t)) as [dh|] eqn:Edh.
+  2:{ split; [|apply sim_mark; assumption].
+      apply (goodA_finish c0 k bA); auto.
+      - apply coreA_mark; [intro Hx; discriminate Hx | exact HC].
+      - intros j Hj. apply get_rt_mark_other. auto. }
+  destruct (Hguard dh Edh) as [Hfresh Hfits]. cbv zeta. set (key := pt_key H s t dh) in *.
+  assert (Htn : pt_tainted t bM = pt_tainted t bA) by (unfold pt_tainted; rewrite Sc; reflexivity).
+  unfold hit_res. rewrite <- Sc, (hit_cond_sim t bA bM HS), Htn.
+  assert (Hmiss :
+    goodA c0 (S k) (exec_tail H cfgA s k t key (pt_tainted t bA) (pt_b0 k key bA)) /\
+    sim (exec_tail H cfgA s k t key (pt_tainted t bA) (pt_b0 k key bA))
+        (let '(okd, b2) := load_dep_outputs H (S (length (s_nodes s))) cfgM s (td_deps t) (pt_b0 k key bM) in
+         if okd then exec_tail H cfgM s k t key (pt_tainted t bA) b2 else mark b2 k TFailed)).
+  { destruct (miss_deps k t key bA bM Hn Hshort HC Hk0 HS Hcl Hall) as (bM2 & E2 & HS2 & Hdp).
+    rewrite E2. unfold exec_tail.
+    destruct (execute H cfgA s k t key (pt_tainted t bA) (pt_b0 k key bA)) as [okA bA3] eqn:EA.
+    destruct (execute H cfgM s k t key (pt_tainted t bA) bM2) as [okM bM3] eqn:EM.
+    destruct (exec_step c0 k t key _ bA bM2 okA bA3 okM bM3 Hn HG Hfresh HS2 Hdp EA EM) as (Hok & G & S').
+    subst okM. split; assumption. }
+  destruct (rlookup key (c_results (b_cache bA))) as [res|] eqn:Er; [|exact Hmiss].
+  destruct (hit_cond cfgA t bA); [|exact Hmiss].
+  destruct (hit_step c0 k t key res bA bM Hn HG HS Hfresh Hfits Er) as (b1 & El & G & S').
+  rewrite El. split; assumption.
+Qed.
+
+(* ------------------------------------------------------------------ one node of the walk, both modes *)
+Definition deps_short : Prop :=
+  forall i t, node_at s i = Some (NTarget t) -> length (td_deps t) <= length (s_nodes s).
+
+Lemma goodA_weaken c0 k b : goodA c0 k b -> goodA c0 (S k) b.
+Proof. intros (HC & Hz & Ho). split; [exact HC|]. split; [|exact Ho]. intros j Hj. apply Hz. lia. Qed.
+
+Lemma mark_step c0 k st bA bM :
+  (st_ok st = true -> forall t, node_at s k <> Some (NTarget t)) ->
+  goodA c0 k bA -> sim bA bM ->
+  goodA c0 (S k) (mark bA k st) /\ sim (mark bA k st) (mark bM k st).
+Proof.
+  intros Hst HG HS. pose proof HG as (HC & Hz & _).
+  assert (Hdk : dep_ok bA k = false) by (unfold dep_ok; rewrite (Hz k (le_n _)); reflexivity).
+  split; [|apply sim_mark; assumption].
+  apply (goodA_finish c0 k bA); auto.
+  - apply coreA_mark; assumption.
+  - intros j Hj. apply get_rt_mark_other. auto.
+Qed.
+
+Lemma sim_stop bA bM :
+  sim bA bM ->
+  sim (mkB (b_world bA) (b_cache bA) (b_rt bA) (b_exec bA) true)
+      (mkB (b_world bM) (b_cache bM) (b_rt bM) (b_exec bM) true).
+Proof.
+  intros (S1 & S2 & S3 & S4 & S5 & S6 & S7 & S8).
+  split; [exact S1|]. split; [exact S2|]. split; [reflexivity|]. split; [exact S4|].
+  split; [exact S5|]. split; [exact S6|]. split; [exact S7 | exact S8].
+Qed.
+
+Lemma pn_step c0 sel k bA bM :
+  deps_short -> goodA c0 k bA -> sim bA bM -> ok_closed s k bA ->
+  (forall t, node_at s k = Some (NTarget t) -> node_guard c0 t bA) ->
+  goodA c0 (S k) (process_node H cfgA s sel bA k) /\
+  sim (process_node H cfgA s sel bA k) (process_node H cfgM s sel bM k).
+Proof.
+  intros Hshort HG HS Hcl Hguard. pose proof HS as (_ & _ & Ss & _).
+  unfold process_node. rewrite <- Ss.
+  assert (Hsame : forall ds, forallb (dep_ok bM) ds = forallb (dep_ok bA) ds).
+  { intro ds. apply forallb_ext_all. intro d. apply (sim_dep_ok bA bM d HS). }
+  destruct (negb (existsb (Nat.eqb k) sel)); [split; [apply goodA_weaken, HG | exact HS]|].
+  destruct (b_stop bA); [apply mark_step; auto; intro Hx; discriminate Hx|].
+  destruct (node_at s k) as [n|] eqn:En; [|split; [apply goodA_weaken, HG | exact HS]].
+  rewrite Hsame.
+  destruct (forallb (dep_ok bA) (node_deps n)) eqn:Ed; cbn [negb];
+    [|apply mark_step; auto; intro Hx; discriminate Hx].
+  destruct n as [t|l a]; [|apply mark_step; auto; intros _ t Ht; discriminate Ht].
+  destruct (pt_step c0 k t bA bM En (Hshort k t En) HG HS Hcl Ed (Hguard t eq_refl)) as [G S'].
+  pose proof S' as (_ & _ & _ & _ & _ & Srt & _). rewrite <- (proj2 (proj2 (Srt k))).
+  destruct (rt_status (get_rt (process_target H cfgA s k t bA) k)); try (split; assumption).
+  rewrite <- Hff. destruct (cfg_failfast cfgA); [|split; assumption].
+  split; [exact G | apply sim_stop, S'].
+Qed.
 End Build1.
 End Lockstep.
